@@ -59,6 +59,9 @@ def run_inline(prog):
     try:
         with contextlib.redirect_stdout(buf), contextlib.redirect_stderr(buf):
             ex = Example(files).run_inline(args, reported_categories=cats, raises=raises)
+            if prog.get("twice"):
+                cats = Rec()
+                ex = ex.run_inline(args, reported_categories=cats, raises=Rec())
         return {"files": dict(ex.files), "categories": cats.value if cats.seen else None}
     except BaseException as e:  # noqa
         return {"error": f"{type(e).__name__}: {str(e)[:300]}"}
@@ -73,6 +76,9 @@ def run_helper_pytest(prog):
     try:
         with contextlib.redirect_stdout(buf), contextlib.redirect_stderr(buf):
             ex = Example(files).run_pytest(args, returncode=rc, report=report, term_columns=200)
+            if prog.get("twice"):
+                rc, report = Rec(), Rec()
+                ex = ex.run_pytest(args, returncode=rc, report=report, term_columns=200)
         return {"files": {k: v for k, v in ex.files.items() if k.endswith(".py")}, "report": report.value, "rc": rc.value}
     except BaseException as e:  # noqa
         return {"error": f"{type(e).__name__}: {str(e)[:300]}"}
@@ -83,7 +89,17 @@ def run_raw(prog):
     try:
         files = dict(prog.get("files") or {"test_something.py": prog["source"]})
         driver.write_project(d, files)
-        r = driver.run_pytest(d, [f"--inline-snapshot={','.join(list(prog['flags']) + ['report'])}"])
+        env = None
+        if prog.get("twice"):
+            # a second session in the same directory with Python's default byte-code caching (validated by mtime and size of the source)
+            import os
+            import time
+            env = {"PYTHONDONTWRITEBYTECODE": ""}
+            old = time.time() - 3600
+            for n in files:
+                os.utime(d / n, (old, old))
+            driver.run_pytest(d, [f"--inline-snapshot={','.join(list(prog['flags']) + ['report'])}"], env=env)
+        r = driver.run_pytest(d, [f"--inline-snapshot={','.join(list(prog['flags']) + ['report'])}"], env=env)
         return {"files": {n: (d / n).read_text() for n in files}, "stdout": r["stdout"], "rc": r["rc"], "stderr": r["stderr"][-500:]}
     finally:
         shutil.rmtree(d, ignore_errors=True)
@@ -138,6 +154,10 @@ def classify(prog, o):
     # F-48: the corpus project ODD (literals whose generated text black normalises back): run_inline reports an update the sessions hide
     if prog.get("odd") and a == b and set(o["inline"].get("categories") or []) - {"update"} == set(cats_from_report(o["raw"].get("stdout", ""))):
         return "F-48"
+    # F-79: the corpus project NESTED with fix approved: the pending update lies inside a node that the approved fix removes; run_inline lists the categories of ALL
+    # recorded changes, the sessions do not show a category whose preview is empty once the earlier categories are applied.  Same files, one extra `update`.
+    if prog.get("nested") and "fix" in prog["flags"] and a == b and set(o["inline"].get("categories") or []) - set(cats_from_report(o["raw"].get("stdout", ""))) == {"update"}:
+        return "F-79"
     return None
 
 
@@ -179,6 +199,15 @@ def run(ctx: Ctx):
              "def test_append():\n    assert record('append') == snapshot()\n")
     for fl in (("create",), ("create", "fix"), ("fix",)):
         progs.append({"source": ORDER, "files": {"test_something.py": ORDER}, "flags": fl, "sites": [1, 2, 3], "rich": False})
+    # a change inside a dict entry that a NOT approved category would delete (inner snapshot in a vanished entry), and the reverse
+    NESTED = ("from inline_snapshot import snapshot\n\n\ndef info():\n    return {'name': 'block'}\n\n\ndef test_a():\n"
+              "    assert info() == snapshot({'name': 'block', 'size': snapshot(1024 * 4)})\n    assert [1, 'x'] == snapshot([1, {'k': snapshot(0o10)}])\n")
+    for fl in (("update",), ("fix",), ("fix", "update"), ()):
+        progs.append({"source": NESTED, "files": {"test_something.py": NESTED}, "flags": fl, "sites": [1, 2, 3], "rich": False, "nested": True})
+    # the same flags a second time in the same directory (a rewrite that keeps the size of the file; byte-code caching on in the real session)
+    TWICE = "from inline_snapshot import snapshot\n\n\ndef test_a():\n    assert [1, 2] == snapshot([2, 1])\n    assert 'abd' == snapshot('abc')\n"
+    for fl in (("fix",), ("create", "fix", "trim", "update")):
+        progs.append({"source": TWICE, "files": {"test_something.py": TWICE}, "flags": fl, "sites": [1, 2], "rich": False, "twice": True})
     outs = pmap(run_all, progs, procs=12, chunksize=1)
     terms = []
     for p, o in zip(progs, outs):
@@ -202,6 +231,8 @@ def run(ctx: Ctx):
         if why:
             ctx.report("C19 oracle: " + why, {"kind": "proj", "source": p["source"], "files": p.get("files"), "flags": p["flags"], "inline": fi, "raw": fr, "prelude": p.get("prelude")}, tag=classify(p, o))
             continue
+        if p.get("twice"):
+            continue            # the observations below describe ONE run
         # which categories were applied (pending and the file changed accordingly) vs the model of both drivers
         pend = {c: c in cr for c in CATS}
         orig = dict(p.get("files") or {"test_something.py": p["source"]})
